@@ -75,3 +75,13 @@ def fast_frames(seq: int, payload: bytes, pad: int | None = None) -> list[bytes]
     if pad is not None:
         out = [f + bytes([pad]) * (8 - len(f)) for f in out]
     return out
+
+
+def iso_name(unique=12345, mfr=229, inst_lower=0, inst_upper=0, function=130, dev_class=25, sys_inst=0, industry=4, aac=1):
+    """64-bit ISO 11783 NAME (PGN 60928 payload as an integer, little-endian on the wire)."""
+    return ((unique & 0x1FFFFF) | ((mfr & 0x7FF) << 21) | ((inst_lower & 7) << 32) | ((inst_upper & 0x1F) << 35)
+            | ((function & 0xFF) << 40) | ((dev_class & 0x7F) << 49) | ((sys_inst & 0xF) << 56) | ((industry & 7) << 60) | ((aac & 1) << 63))
+
+
+def claim_packet(src, name, dst=255, prio=6):
+    return ebyte_packet(can_id(prio, 60928, src, dst), name.to_bytes(8, "little"))
